@@ -11,6 +11,8 @@ import core
 
 def run_api_corr(ctx, props=("C10", "C14", "C15")):
     uberjob = core.use_repo()
+    import translate_run
+    translate_run.check(ctx)        # the plumbing of run() compiled from _run.py (and the engine calls behind it) and linked to Run/Api.v by theorems
     import uberjob._run as runmod
     import uberjob._transformations.caching as caching
     import uberjob._execution.run_physical as rp
